@@ -491,6 +491,30 @@ pub fn c10(cx: &mut Ctx) {
             c10_exchange(cx, &req, 0, head.as_bytes());
         }
     }
+    // several Connection fields on one side, `close` first, in the middle or last, other fields in between
+    for fields in [&["close", "keep-alive"][..], &["keep-alive", "close"], &["keep-alive", "close", "keep-alive"], &["close", "close"], &["keep-alive", "keep-alive"], &["close", "Upgrade"], &["TE", "close", "keep-alive"]] {
+        for side in 0..2 {
+            for (fh, fb) in [("Content-Length: 0\r\n", ""), ("Content-Length: 5\r\n", "hello"), ("Transfer-Encoding: chunked\r\n", "5\r\nhello\r\n0\r\n\r\n")] {
+                for status in ["200", "204", "302"] {
+                    cx.case("several");
+                    let pairs: Vec<(&str, &[u8])> = fields.iter().map(|v| ("connection", v.as_bytes())).collect();
+                    let req = if side == 0 { format!("GET HTTP/1.1 http://a.test/p {}", super::hdrs(&pairs)) } else { "GET HTTP/1.1 http://a.test/p 0".to_string() };
+                    let mut head = format!("HTTP/1.1 {} R\r\n", status);
+                    if status == "302" { head.push_str("Location: /next\r\n"); }
+                    if side == 1 {
+                        for (i, v) in fields.iter().enumerate() {
+                            head.push_str(&format!("{}: {}\r\n", if i % 2 == 0 { "Connection" } else { "connection" }, v));
+                            if i == 0 { head.push_str("X-Between: 1\r\n"); }
+                        }
+                    }
+                    if status != "204" { head.push_str(fh); }
+                    head.push_str("\r\n");
+                    if status != "204" { head.push_str(fb); }
+                    c10_exchange(cx, &req, 0, head.as_bytes());
+                }
+            }
+        }
+    }
     // the shortest answers a server can give while the client awaits 100 (status line without reason phrase, no
     // fields, bare-LF line ends), to requests that announce a body of 5 bytes, of 0 bytes, or a chunked one
     for answer in ["HTTP/1.1 204\r\n\r\n", "HTTP/1.1 304\r\n\r\n", "HTTP/1.1 301\r\n\r\n", "HTTP/1.1 101\r\n\r\n", "HTTP/1.1 204 \r\n\r\n", "HTTP/1.1 403\r\nContent-Length: 0\r\n\r\n",
